@@ -185,6 +185,8 @@ const char *build_config() {
     return "noinfo";
 #elif defined(SIM_CONFIG_DTOSTRE)
     return "dtostre";
+#elif defined(SIM_CONFIG_USER)
+    return "user";
 #else
     return "malloc";
 #endif
